@@ -84,8 +84,7 @@ def run_suite(prop, mod, rep):
                     rec["result"] = "detected" if hit else ("detected-other-rule" if new else "MISSED")
                     rec["matched"] = hit[:4]
             finally:
-                if facts_dir and os.path.isdir(facts_dir):
-                    shutil.rmtree(facts_dir, ignore_errors=True)
+                pass  # fact sets of scratch trees are bounded by core._gc_facts (another check may share the hash)
             rec["wall_s"] = round(time.time() - t0, 1)
             rep.mutants.append(rec)
     finally:
